@@ -7,6 +7,7 @@ what each probe reference resolves to is compared with Ref (F2018 14.2.2).
 """
 from __future__ import annotations
 import itertools
+import random
 import zlib
 import json
 import os
@@ -229,8 +230,10 @@ def _all_targets(resolve):
 
 def orders(files, tier):
     names = sorted(files)
-    if tier == "thorough" and len(names) <= 5:
-        return [list(p) for p in itertools.permutations(names)]
+    if tier == "thorough" and len(names) >= 3:
+        perms = list(itertools.permutations(names))
+        rng = random.Random(zlib.crc32("".join(files.values()).encode()))
+        return [names, names[::-1]] + [list(p) for p in rng.sample(perms, 2)]
     return [names, names[::-1]]
 
 
@@ -355,12 +358,17 @@ def run(tier, seed, ck: Check):
         cases += generate(scratch, 1, 4 if big else 3, dev, ck)
         cases += generate(scratch, 2, 4 if big else 3, dev, ck)
         cases += generate(scratch, 3, 3 if big else 2, dev, ck)
+        ALL_STYLES = ((0, "program"), (1, "program"), (0, "modproc"), (1, "modproc"), (0, "hosted"), (1, "hosted"), (0, "program-stubname"), (0, "modproc-stubname"))
+        small = {1: 3, 2: 3, 3: 2}      # the quick tier's cost bounds per number of modules
         for c in cases:
             c["tier"] = tier
-            c["kindmaps"] = ("K1", "K2", "K3") if big else (("K1", "K2", "K3")[zlib.crc32(json.dumps(c["mods"], sort_keys=True).encode()) % 3],)
             h = zlib.crc32(json.dumps(c["mods"], sort_keys=True).encode())
-            c["styles"] = ((0, "program"), (1, "program"), (0, "modproc"), (1, "modproc"), (0, "hosted"), (1, "hosted"), (0, "program-stubname"), (0, "modproc-stubname")) if big else \
-                          (((h >> 2) % 2, ("program", "modproc", "hosted", "program-stubname")[(h >> 3) % 4]),)
+            # thorough: every kind map and every placement for the cases the quick tier samples from, one (hashed) variant for the
+            # larger ones - the full product would be some 10^9 runs
+            full = big and c["cost"] <= small[len(c["mods"]) - 1]
+            c["kindmaps"] = ("K1", "K2", "K3") if full else (("K1", "K2", "K3")[h % 3],)
+            c["styles"] = ALL_STYLES if full else (((h >> 2) % 2, ("program", "modproc", "hosted", "program-stubname")[(h >> 3) % 4]),)
+        ck.coverage["cases_full_variants"] = sum(1 for c in cases if len(c["styles"]) > 1)
         results = pool.pmap(evaluate, cases, chunksize=20)
         for c, rs in zip(cases, results):
             if nontrivial(c):
